@@ -143,6 +143,10 @@ pub struct Shared {
     pub log_queries: bool,
     /// per logical thread: ids entered and not yet exited (most recent last); drives
     /// `current_span` so that `Span::current()` works against this collector
+    /// the next `event`/`new_span` call panics after it has been logged
+    pub panic_next: AtomicBool,
+    /// `clone_span` hands out a fresh id per handle (the Collect contract allows it)
+    pub fresh_clone_ids: AtomicBool,
     pub stacks: Mutex<std::collections::HashMap<u8, Vec<u64>>>,
     pub metas: Mutex<std::collections::HashMap<u64, &'static Metadata<'static>>>,
 }
@@ -173,6 +177,8 @@ impl RecCollector {
             spec: Mutex::new(spec),
             next_id: AtomicU64::new(1),
             log_queries,
+            panic_next: AtomicBool::new(false),
+            fresh_clone_ids: AtomicBool::new(false),
             stacks: Mutex::new(Default::default()),
             metas: Mutex::new(Default::default()),
         });
@@ -240,6 +246,9 @@ impl Collect for RecCollector {
         c.fields = g.0;
         self.0.push(c);
         self.0.metas.lock().unwrap().insert(id, a.metadata());
+        if self.0.panic_next.swap(false, Ordering::SeqCst) {
+            panic!("scripted panic inside Collect::new_span");
+        }
         span::Id::from_u64(id)
     }
     fn record(&self, id: &span::Id, values: &span::Record<'_>) {
@@ -267,6 +276,9 @@ impl Collect for RecCollector {
             1
         };
         self.0.push(c);
+        if self.0.panic_next.swap(false, Ordering::SeqCst) {
+            panic!("scripted panic inside Collect::event");
+        }
     }
     fn enter(&self, id: &span::Id) {
         self.0.push(Call::of_id(Kind::Enter, id));
@@ -281,8 +293,21 @@ impl Collect for RecCollector {
         }
     }
     fn clone_span(&self, id: &span::Id) -> span::Id {
-        self.0.push(Call::of_id(Kind::CloneSpan, id));
-        id.clone()
+        let mut c = Call::of_id(Kind::CloneSpan, id);
+        let new = if self.0.fresh_clone_ids.load(Ordering::SeqCst) {
+            let n = self.0.next_id.fetch_add(1, Ordering::SeqCst);
+            let new = ((self.0.id as u64 + 1) << 32) | n;
+            let mut metas = self.0.metas.lock().unwrap();
+            if let Some(m) = metas.get(&id.into_u64()).copied() {
+                metas.insert(new, m);
+            }
+            new
+        } else {
+            id.into_u64()
+        };
+        c.id2 = new;
+        self.0.push(c);
+        span::Id::from_u64(new)
     }
     fn try_close(&self, id: span::Id) -> bool {
         self.0.push(Call::of_id(Kind::TryClose, &id));
